@@ -51,6 +51,14 @@ theorem effDelay_pos (c : Cfg) : 0 < c.effDelay := by
   · exact fallbackDelay_pos
   · omega
 
+/-- the fall-backs in the code are the documented defaults, so the documented deadline is the one
+computed with the code's effective timeout and delay -/
+theorem documented_eq (c : Cfg) (a : Arr) :
+    documented c a = documentedWith c.effTimeout c.effDelay a := by
+  have h1 : Gen.Deadline.fallbackTraceTimeout = Gen.Deadline.cfgDefaultTraceTimeout := by decide
+  have h2 : Gen.Deadline.fallbackSendDelay = Gen.Deadline.cfgDefaultSendDelay := by decide
+  simp only [documented, Cfg.docTimeout, Cfg.docDelay, Cfg.effTimeout, Cfg.effDelay, h1, h2]
+
 /-! ### the state machine keeps its configuration and key-distinctness -/
 
 theorem addSpan_cfg (s : St) (id : Nat) (tr : Tr) (root : Bool) (size : Nat) :
@@ -136,17 +144,19 @@ structure Rel (c : Cfg) (now : Int) (tr : Tr) (a : Arr) : Prop where
   rootLe : ∀ r, a.rootAt = some r → r ≤ now
   limLe : ∀ l, a.limitAt = some l → l ≤ now
   limIff : a.limitAt.isSome ↔ (0 < c.spanLimit ∧ c.spanLimit < a.count)
-  sendBy : tr.sendBy = documented c a
+  sendBy : tr.sendBy = documentedWith c.effTimeout c.effDelay a
 
 def Inv (c : Cfg) (s : St) (sp : Spec) : Prop :=
   s.cfg = c ∧ s.now = sp.now ∧ AList.NoDupKeys s.buf ∧
   (∀ id tr, AList.get s.buf id = some tr → id ∉ s.decided ∧ ∃ a, sp.arr id = some a ∧ Rel c s.now tr a) ∧
-  (∀ id, AList.get s.buf id = none → sp.arr id ≠ none → id ∈ s.decided)
+  (∀ id, AList.get s.buf id = none → sp.arr id ≠ none → id ∈ s.decided) ∧
+  (∀ id ∈ s.decided, sp.arr id ≠ none)
 
 theorem inv_init (c : Cfg) : Inv c (init c) {} := by
-  refine ⟨rfl, rfl, AList.nodup_nil, ?_, ?_⟩
+  refine ⟨rfl, rfl, AList.nodup_nil, ?_, ?_, ?_⟩
   · intro id tr h; simp [init] at h
   · intro id _ h; simp at h
+  · intro id h; simp [init] at h
 
 theorem rel_mono {c : Cfg} {now now' : Int} {tr : Tr} {a : Arr} (h : Rel c now tr a) (hle : now ≤ now') :
     Rel c now' tr a :=
@@ -162,9 +172,9 @@ theorem doc_step (c : Cfg) (now : Int) (a : Arr) (root : Bool)
     (h6 : ∀ l, a.limitAt = some l → l ≤ now)
     (h7 : a.limitAt.isSome ↔ (0 < c.spanLimit ∧ c.spanLimit < a.count))
     (over : Bool) (hover : over = true ↔ (0 < c.spanLimit ∧ c.spanLimit < a.count + 1)) :
-    (if (root || over) = true then min (documented c a) (now + (if over = true then 0 else c.effDelay))
-      else documented c a) =
-    documented c
+    (if (root || over) = true then min (documentedWith c.effTimeout c.effDelay a) (now + (if over = true then 0 else c.effDelay))
+      else documentedWith c.effTimeout c.effDelay a) =
+    documentedWith c.effTimeout c.effDelay
       { first := a.first, count := a.count + 1,
         rootAt := if root ∧ a.rootAt = none then some now else a.rootAt,
         limitAt := if 0 < c.spanLimit ∧ c.spanLimit < a.count + 1 ∧ a.limitAt = none then some now
@@ -177,18 +187,18 @@ theorem doc_step (c : Cfg) (now : Int) (a : Arr) (root : Bool)
         intro ho; have := h7.mpr ho; simp [hl] at this
       by_cases ho : (0 < c.spanLimit ∧ c.spanLimit < a.count + 1)
       · have hov : over = true := hover.mpr ho
-        cases root <;> simp [documented, hr, hl, ho, hov] <;> omega
+        cases root <;> simp [documentedWith, hr, hl, ho, hov] <;> omega
       · have hov : over = false := by
           cases hb : over
           · rfl
           · exact absurd (hover.mp hb) ho
-        cases root <;> simp [documented, hr, hl, ho, hov]
+        cases root <;> simp [documentedWith, hr, hl, ho, hov]
     | some l =>
       have hl_le := h6 l hl
       have hold : (0 < c.spanLimit ∧ c.spanLimit < a.count) := h7.mp (by simp [hl])
       have ho : (0 < c.spanLimit ∧ c.spanLimit < a.count + 1) := ⟨hold.1, by omega⟩
       have hov : over = true := hover.mpr ho
-      cases root <;> simp [documented, hr, hl, hov] <;> omega
+      cases root <;> simp [documentedWith, hr, hl, hov] <;> omega
   | some r =>
     have hr_le := h5 r hr
     cases hl : a.limitAt with
@@ -197,18 +207,18 @@ theorem doc_step (c : Cfg) (now : Int) (a : Arr) (root : Bool)
         intro ho; have := h7.mpr ho; simp [hl] at this
       by_cases ho : (0 < c.spanLimit ∧ c.spanLimit < a.count + 1)
       · have hov : over = true := hover.mpr ho
-        cases root <;> simp [documented, hr, hl, ho, hov] <;> omega
+        cases root <;> simp [documentedWith, hr, hl, ho, hov] <;> omega
       · have hov : over = false := by
           cases hb : over
           · rfl
           · exact absurd (hover.mp hb) ho
-        cases root <;> simp [documented, hr, hl, ho, hov] <;> omega
+        cases root <;> simp [documentedWith, hr, hl, ho, hov] <;> omega
     | some l =>
       have hl_le := h6 l hl
       have hold : (0 < c.spanLimit ∧ c.spanLimit < a.count) := h7.mp (by simp [hl])
       have ho : (0 < c.spanLimit ∧ c.spanLimit < a.count + 1) := ⟨hold.1, by omega⟩
       have hov : over = true := hover.mpr ho
-      cases root <;> simp [documented, hr, hl, hov] <;> omega
+      cases root <;> simp [documentedWith, hr, hl, hov] <;> omega
 
 /-- the heart of C03: one span arrival keeps `SendBy` equal to the documented deadline -/
 theorem rel_addSpan (c : Cfg) (now : Int) (tr : Tr) (a : Arr) (root : Bool) (size : Nat)
@@ -265,10 +275,11 @@ theorem rel_addSpan (c : Cfg) (now : Int) (tr : Tr) (a : Arr) (root : Bool) (siz
   · rw [hsb2, h8]
     exact doc_step c now a root hd h5 h6 h7 over hover
 
-theorem inv_removeIds {c : Cfg} {s : St} {sp : Spec} (h : Inv c s sp) (ids : List Nat) :
+theorem inv_removeIds {c : Cfg} {s : St} {sp : Spec} (h : Inv c s sp) (ids : List Nat)
+    (hsub : ∀ id ∈ ids, id ∈ AList.keys s.buf) :
     Inv c (removeIds s ids) sp := by
-  obtain ⟨h1, h2, h3, h4, h5⟩ := h
-  refine ⟨h1, h2, AList.nodup_filter _ h3 _, ?_, ?_⟩
+  obtain ⟨h1, h2, h3, h4, h5, h6⟩ := h
+  refine ⟨h1, h2, AList.nodup_filter _ h3 _, ?_, ?_, ?_⟩
   · intro id tr hg
     simp only [removeIds] at hg ⊢
     rw [get_filter_key s.buf (fun k => decide (k ∉ ids)) id] at hg
@@ -284,15 +295,26 @@ theorem inv_removeIds {c : Cfg} {s : St} {sp : Spec} (h : Inv c s sp) (ids : Lis
     · simp [hin]
     · simp only [hin, not_false_eq_true, decide_true, if_true] at hg
       simp [h5 id hg harr]
+  · intro id hid
+    simp only [removeIds, List.mem_append] at hid
+    rcases hid with hid | hid
+    · have hk := hsub id hid
+      rw [AList.mem_keys_iff] at hk
+      cases hg : AList.get s.buf id with
+      | none => simp [hg] at hk
+      | some tr =>
+        obtain ⟨_, a, ha, _⟩ := h4 id tr hg
+        simp [ha]
+    · exact h6 id hid
 
 theorem inv_addSpan {c : Cfg} {s : St} {sp : Spec} (h : Inv c s sp) (id : Nat) (tr : Tr) (a : Arr)
     (root : Bool) (size : Nat) (hnd : id ∉ s.decided) (hrel : Rel c s.now tr a)
     (harr : sp.arrOf id = a) :
     Inv c (addSpan s id tr root size).1 (Spec.step c sp (.span id root size)) := by
-  obtain ⟨h1, h2, h3, h4, h5⟩ := h
+  obtain ⟨h1, h2, h3, h4, h5, h6⟩ := h
   have hr := rel_addSpan c s.now tr a root size hrel
   simp only at hr
-  refine ⟨h1, h2, AList.nodup_put _ h3 _ _, ?_, ?_⟩
+  refine ⟨h1, h2, AList.nodup_put _ h3 _ _, ?_, ?_, ?_⟩
   · intro k trk hg
     simp only [addSpan] at hg ⊢
     rw [AList.get_put] at hg
@@ -320,19 +342,31 @@ theorem inv_addSpan {c : Cfg} {s : St} {sp : Spec} (h : Inv c s sp) (id : Nat) (
       simp only [Spec.step] at hne
       rw [if_neg (Ne.symm hk)] at hne
       exact hne
+  · intro k hk
+    simp only [addSpan] at hk
+    simp only [Spec.step]
+    by_cases e : k = id
+    · simp [e]
+    · rw [if_neg e]; exact h6 k hk
+
+theorem expiredIds_sub_keys (s : St) : ∀ id ∈ expiredIds s, id ∈ AList.keys s.buf := by
+  intro id h
+  simp only [expiredIds, List.mem_map, List.mem_filter] at h
+  obtain ⟨p, ⟨hp, _⟩, rfl⟩ := h
+  exact List.mem_map.mpr ⟨p, hp, rfl⟩
 
 theorem inv_step {c : Cfg} {s : St} {sp : Spec} (h : Inv c s sp) (o : Op) :
     Inv c (step s o).1 (Spec.step c sp o) := by
   cases o with
   | adv d =>
-    obtain ⟨h1, h2, h3, h4, h5⟩ := h
-    refine ⟨h1, by simp [step, Spec.step, h2], h3, ?_, h5⟩
+    obtain ⟨h1, h2, h3, h4, h5, h6⟩ := h
+    refine ⟨h1, by simp [step, Spec.step, h2], h3, ?_, h5, h6⟩
     intro id tr hg
     obtain ⟨hnd, a, ha, hrel⟩ := h4 id tr hg
     exact ⟨hnd, a, ha, rel_mono hrel (by simp [step]; omega)⟩
   | span id root size =>
     have h' := h
-    obtain ⟨h1, h2, h3, h4, h5⟩ := h
+    obtain ⟨h1, h2, h3, h4, h5, h6⟩ := h
     simp only [step, processSpan]
     cases hg : AList.get s.buf id with
     | some tr =>
@@ -341,7 +375,7 @@ theorem inv_step {c : Cfg} {s : St} {sp : Spec} (h : Inv c s sp) (o : Op) :
     | none =>
       by_cases hdec : id ∈ s.decided
       · simp only [hdec, if_true]
-        refine ⟨h1, h2, h3, ?_, ?_⟩
+        refine ⟨h1, h2, h3, ?_, ?_, ?_⟩
         · intro k trk hgk
           obtain ⟨hnd, a, ha, hrel⟩ := h4 k trk hgk
           refine ⟨hnd, a, ?_, hrel⟩
@@ -354,6 +388,11 @@ theorem inv_step {c : Cfg} {s : St} {sp : Spec} (h : Inv c s sp) (o : Op) :
           · apply h5 k hgk
             simp only [Spec.step] at hne
             rw [if_neg hk] at hne; exact hne
+        · intro k hk
+          simp only [Spec.step]
+          by_cases e : k = id
+          · simp [e]
+          · rw [if_neg e]; exact h6 k hk
       · simp only [hdec, if_false]
         have hnone : sp.arr id = none := by
           cases ha : sp.arr id with
@@ -364,16 +403,16 @@ theorem inv_step {c : Cfg} {s : St} {sp : Spec} (h : Inv c s sp) (o : Op) :
           root size hdec ?_ (by simp [Spec.arrOf, hnone])
         refine ⟨h2, rfl, rfl, (by simp [h2]), (fun r hr => by cases hr), (fun l hl => by cases hl), ?_, ?_⟩
         · simp
-        · simp [documented, h1, h2]
+        · simp [documentedWith, h1, h2]
   | tick taken =>
     simp only [step, tick]
     split
-    · exact inv_removeIds h taken
+    · next hv => exact inv_removeIds h taken (fun id hid => expiredIds_sub_keys s id (hv.2.1 id hid))
     · exact h
   | eject bytes imp order =>
     simp only [step, eject]
     split
-    · exact inv_removeIds h order
+    · next hv => exact inv_removeIds h order hv.2.1
     · exact h
 
 theorem inv_runFrom {c : Cfg} {s : St} {sp : Spec} (h : Inv c s sp) (ops : List Op) :
@@ -411,13 +450,54 @@ theorem mem_sentOf {s : St} {f : Tr → Reason} {ids : List Nat} {x : Sent} (hx 
 theorem tick_accepted {s : St} {taken : List Nat} {l : List Sent} {left : List Nat}
     (h : (step s (.tick taken)).2 = .sent l left) :
     ValidTake s taken ∧ l = sentOf s (reasonOf s.cfg) taken ∧
-      (step s (.tick taken)).1 = removeIds s taken := by
+      (step s (.tick taken)).1 = removeIds s taken ∧ left = leftIds (removeIds s taken) := by
   simp only [step, tick] at h ⊢
   split at h
   · rename_i hv
     simp only [Out.sent.injEq] at h
-    simp [hv, h.1]
+    simp [hv, h.1, h.2]
   · cases h
+
+theorem eject_accepted {s : St} {bytes : Nat} {imp : AList Nat Nat} {order : List Nat}
+    {l : List Sent} {left : List Nat}
+    (h : (step s (.eject bytes imp order)).2 = .sent l left) :
+    ValidEject s bytes imp order ∧ l = sentOf s (fun _ => Reason.ejectedMemsize) order ∧
+      (step s (.eject bytes imp order)).1 = removeIds s order ∧ left = leftIds (removeIds s order) := by
+  simp only [step, eject] at h ⊢
+  split at h
+  · rename_i hv
+    simp only [Out.sent.injEq] at h
+    simp [hv, h.1, h.2]
+  · cases h
+
+/-- every id of `ids` that is buffered yields one entry, in order -/
+theorem sentOf_ids {s : St} (f : Tr → Reason) (ids : List Nat)
+    (hs : ∀ id ∈ ids, id ∈ AList.keys s.buf) : (sentOf s f ids).map (·.1) = ids := by
+  induction ids with
+  | nil => rfl
+  | cons a t ih =>
+    have ha := hs a List.mem_cons_self
+    rw [AList.mem_keys_iff] at ha
+    cases hg : AList.get s.buf a with
+    | none => simp [hg] at ha
+    | some tr =>
+      have iht := ih (fun id hid => hs id (List.mem_cons_of_mem _ hid))
+      simp only [sentOf, List.filterMap_cons, hg, Option.map_some, List.map_cons] at iht ⊢
+      rw [iht]
+
+/-- a duplicate-free list inside a duplicate-free list of the same length contains all of it -/
+theorem subset_of_nodup_length {l₁ l₂ : List Nat} (h₁ : l₁.Nodup) (h₂ : l₂.Nodup)
+    (hsub : ∀ a ∈ l₂, a ∈ l₁) (hlen : l₂.length = l₁.length) : ∀ a ∈ l₁, a ∈ l₂ := by
+  have hp : (l₁.filter (fun a => decide (a ∈ l₂))).Perm l₂ := by
+    rw [List.perm_ext_iff_of_nodup (h₁.sublist List.filter_sublist) h₂]
+    intro a
+    simp only [List.mem_filter, decide_eq_true_eq]
+    exact ⟨fun h => h.2, fun h => ⟨hsub a h, h⟩⟩
+  have hl : (l₁.filter (fun a => decide (a ∈ l₂))).length = l₁.length := by
+    rw [hp.length_eq, hlen]
+  have := List.length_filter_eq_length_iff.mp hl
+  intro a ha
+  simpa using this a ha
 
 /-- insertion sort of ids by a key (only used to exhibit a deadline-sorted order) -/
 def insBy (f : Nat → Int) (x : Nat) : List Nat → List Nat
@@ -469,5 +549,118 @@ theorem sortBy_pairwise (f : Nat → Int) (l : List Nat) : (sortBy f l).Pairwise
   induction l with
   | nil => simp [sortBy]
   | cons x t ih => exact insBy_pairwise f x _ ih
+
+/-! ### counting the backlog -/
+
+theorem countP_split {α : Type} (P Q : α → Bool) (l : List α) :
+    l.countP P = l.countP (fun a => P a && Q a) + l.countP (fun a => P a && !Q a) := by
+  induction l with
+  | nil => rfl
+  | cons a t ih =>
+    simp only [List.countP_cons, ih]
+    cases P a <;> cases Q a <;> simp <;> omega
+
+theorem countP_keys_mem {α : Type} (l : AList Nat α) (hn : AList.NoDupKeys l) (ids : List Nat)
+    (hnd : ids.Nodup) (hsub : ∀ id ∈ ids, id ∈ AList.keys l) :
+    l.countP (fun p => decide (p.1 ∈ ids)) = ids.length := by
+  have h1 : l.countP (fun p => decide (p.1 ∈ ids)) = (AList.keys l).countP (fun k => decide (k ∈ ids)) := by
+    simp only [AList.keys, List.countP_map]; rfl
+  rw [h1, List.countP_eq_length_filter]
+  apply List.Perm.length_eq
+  rw [List.perm_ext_iff_of_nodup (List.Nodup.sublist List.filter_sublist hn) hnd]
+  intro a
+  simp only [List.mem_filter, decide_eq_true_eq]
+  exact ⟨fun h => h.2, fun h => ⟨hsub a h, h⟩⟩
+
+theorem sb_of_mem {s : St} (hn : AList.NoDupKeys s.buf) {p : Nat × Tr} (hp : p ∈ s.buf) :
+    sb s p.1 = p.2.sendBy := by
+  have : AList.get s.buf p.1 = some p.2 := AList.get_of_mem hn hp
+  simp [sb, this]
+
+theorem countP_del {α : Type} (P : Nat × α → Bool) (l : AList Nat α) (hn : AList.NoDupKeys l) (k : Nat) :
+    l.countP P = (AList.del l k).countP P +
+      (match AList.get l k with | some v => if P (k, v) then 1 else 0 | none => 0) := by
+  induction l with
+  | nil => simp [AList.del]
+  | cons p t ih =>
+    obtain ⟨a, b⟩ := p
+    simp only [AList.NoDupKeys, AList.keys, List.map_cons, List.nodup_cons] at hn
+    have ih' := ih hn.2
+    by_cases hak : a = k
+    · subst hak
+      have hnone : AList.get t a = none := (AList.get_eq_none_iff t a).mpr hn.1
+      have hdel : AList.del ((a, b) :: t) a = AList.del t a := by simp [AList.del]
+      rw [hdel, AList.get_cons]
+      rw [hnone] at ih'
+      simp only [if_true, List.countP_cons]
+      rw [ih']; simp
+    · have hdel : AList.del ((a, b) :: t) k = (a, b) :: AList.del t k := by simp [AList.del, hak]
+      rw [hdel, AList.get_cons]
+      simp only [hak, if_false, List.countP_cons]
+      rw [ih']; omega
+
+theorem backlog_removeIds_le (s : St) (ids : List Nat) (D : Int) :
+    backlog (removeIds s ids) D ≤ backlog s D := by
+  simp only [backlog, removeIds]
+  exact List.Sublist.countP_le List.filter_sublist
+
+theorem lower_cases (P : Prop) [Decidable P] (upd : Int) (tr1 : Tr) :
+    (if P ∧ upd < tr1.sendBy then { tr1 with sendBy := upd } else tr1).sendBy = tr1.sendBy ∨
+    ((if P ∧ upd < tr1.sendBy then { tr1 with sendBy := upd } else tr1).sendBy = upd ∧ upd < tr1.sendBy) := by
+  split
+  · next h => exact Or.inr ⟨rfl, h.2⟩
+  · exact Or.inl rfl
+
+/-- `addSpan` stores the trace with its `SendBy` unchanged or lowered to an instant `≥ now` -/
+theorem addSpan_sendBy (s : St) (id : Nat) (tr : Tr) (root : Bool) (size : Nat) :
+    ∃ tr2, (addSpan s id tr root size).1.buf = AList.put s.buf id tr2 ∧
+      (tr2.sendBy = tr.sendBy ∨ (s.now ≤ tr2.sendBy ∧ tr2.sendBy < tr.sendBy)) := by
+  have hd := effDelay_pos s.cfg
+  refine ⟨_, rfl, ?_⟩
+  rcases lower_cases ((root || decide (0 < s.cfg.spanLimit ∧ s.cfg.spanLimit < tr.count + 1)) = true)
+      (s.now + (if decide (0 < s.cfg.spanLimit ∧ s.cfg.spanLimit < tr.count + 1) = true then 0 else s.cfg.effDelay))
+      { tr with count := tr.count + 1, size := tr.size + size, hasRoot := tr.hasRoot || root }
+    with h | ⟨h1, h2⟩
+  · exact Or.inl h
+  · right
+    refine ⟨?_, by rw [h1]; exact h2⟩
+    rw [h1]
+    split <;> omega
+
+theorem backlog_addSpan_le (s : St) (hwf : AList.NoDupKeys s.buf) (D : Int) (hD : D < s.now)
+    (id : Nat) (tr : Tr) (root : Bool) (size : Nat)
+    (hold : match AList.get s.buf id with | some t => t = tr | none => D < tr.sendBy) :
+    backlog (addSpan s id tr root size).1 D ≤ backlog s D := by
+  obtain ⟨tr2, hbuf, hsb⟩ := addSpan_sendBy s id tr root size
+  simp only [backlog]
+  rw [hbuf]
+  simp only [AList.put, List.countP_cons]
+  rw [countP_del (fun p => decide (p.2.sendBy ≤ D)) s.buf hwf id]
+  cases hg : AList.get s.buf id with
+  | none =>
+    rw [hg] at hold
+    simp only at hold ⊢
+    have : ¬ tr2.sendBy ≤ D := by omega
+    simp [this]
+  | some t =>
+    rw [hg] at hold
+    simp only at hold ⊢
+    subst hold
+    by_cases h : tr2.sendBy ≤ D
+    · have : t.sendBy ≤ D := by omega
+      simp [h, this]
+    · simp [h]
+
+theorem step_now_le (s : St) (o : Op) : s.now ≤ (step s o).1.now := by
+  cases o with
+  | adv d => simp [step]; omega
+  | span id root size =>
+    simp only [step, processSpan]
+    split
+    · exact Int.le_refl _
+    · split <;> exact Int.le_refl _
+  | tick taken => simp only [step, tick]; split <;> exact Int.le_refl _
+  | eject b i o => simp only [step, eject]; split <;> exact Int.le_refl _
+
 
 end Refinery.Lemmas.Deadline
